@@ -1,4 +1,5 @@
 import Dashu.Model.Int.Word
+import Dashu.Gen.Misc
 /-
   Schoolbook multiplication kernels: mirrors `integer/src/mul/mod.rs`
   (`add_mul_word_same_len_in_place`, `add_mul_word_in_place`, `sub_mul_word_same_len_in_place`) and
@@ -88,5 +89,171 @@ def addSignedMulChunk (W : Nat) (c : List Nat) (neg : Bool) (a b : List Nat) : L
   else
     let (r, carry) := addMulChunk W a c b 0
     (r, (carry : Int))
+
+-- ---------------------------------------------------------------- signed in-place helpers (add.rs)
+
+/-- `add_signed_word_in_place`: words += rhs for a signed word `rhs`; returns the signed overflow -/
+def addSignedWord (W : Nat) (ws : List Nat) (rhs : Int) : List Nat × Int :=
+  if rhs = 0 ∨ ws = [] then (ws, rhs)
+  else if 0 < rhs then
+    let (r, c) := addWord W ws rhs.toNat
+    (r, (c : Int))
+  else
+    let (r, c) := subWord W ws (-rhs).toNat
+    (r, -(c : Int))
+
+/-- `add_signed_same_len_in_place`: words += sign·rhs, same length -/
+def addSignedSameLen (W : Nat) (ws : List Nat) (neg : Bool) (rhs : List Nat) : List Nat × Int :=
+  if neg then
+    let (r, c) := subSameLen W ws rhs 0
+    (r, -(c : Int))
+  else
+    let (r, c) := addSameLen W ws rhs 0
+    (r, (c : Int))
+
+/-- `add_signed_in_place`: words += sign·rhs, `words.len() ≥ rhs.len()` -/
+def addSignedInPlace (W : Nat) (ws : List Nat) (neg : Bool) (rhs : List Nat) : List Nat × Int :=
+  if neg then
+    let (r, c) := subInPlace W ws rhs
+    (r, -(c : Int))
+  else
+    let (r, c) := addInPlace W ws rhs
+    (r, (c : Int))
+
+/-- the slice `c[i..j]` -/
+def window (c : List Nat) (i j : Nat) : List Nat := (c.take j).drop i
+
+/-- `c` with the slice starting at `i` replaced by `win` (same length) -/
+def setWindow (c : List Nat) (i : Nat) (win : List Nat) : List Nat :=
+  c.take i ++ win ++ c.drop (i + win.length)
+
+/-- exactly `len` little-endian words of `n` (i.e. of `n mod B^len`) -/
+def wordsOfLen (W : Nat) : Nat → Nat → List Nat
+  | 0, _ => []
+  | len + 1, n => n % 2 ^ W :: wordsOfLen W len (n / 2 ^ W)
+
+/-- the type of every "c += sign·a·b, returns the signed carry" kernel -/
+abbrev MulKernel := List Nat → Bool → List Nat → List Nat → List Nat × Int
+
+/-- frontier kernel: `toom_3::add_signed_mul_same_len` — defined as its specification
+    (c += sign·a·b modulo `B^|c|`, the quotient is the carry) -/
+def addSignedMulFrontier (W : Nat) : MulKernel := fun c neg a b =>
+  let t : Int := (val W c : Int) + (if neg then -1 else 1) * ((val W a * val W b : Nat) : Int)
+  let m : Int := ((2 ^ (W * c.length) : Nat) : Int)
+  (wordsOfLen W c.length (t % m).toNat, t / m)
+
+-- ---------------------------------------------------------------- Karatsuba (mul/karatsuba.rs)
+
+/-- `karatsuba::add_signed_mul_same_len` with the recursive callee `mul::add_signed_mul_same_len`
+    passed as `rec`.  `n = a.len() = b.len()`, `c.len() = 2n`, `mid = (n+1)/2`.
+      c_lo = a_lo·b_lo           → added (signed) at c[..2mid] and c[mid..3mid]
+      c_hi = a_hi·b_hi           → added at c[2mid..] and (shorter, `add_signed_in_place`) at c[mid..3mid]
+      (a_lo − a_hi)(b_lo − b_hi) → added with sign `−sign·diff_sign` at c[mid..3mid]
+    carries: `carry_c0` leaves c[..2mid] (position 2mid), `carry_c1` leaves c[mid..3mid] (position
+    3mid), `carry` leaves c. -/
+def karatsubaSameLen (W : Nat) (rec : MulKernel) : MulKernel := fun c neg a b =>
+  let n := a.length
+  let mid := (n + 1) / 2
+  let aLo := a.take mid
+  let aHi := a.drop mid
+  let bLo := b.take mid
+  let bHi := b.drop mid
+  -- c_lo = a_lo * b_lo  (scratch filled with zeros; the carry is asserted to be zero)
+  let cLo := (rec (List.replicate (2 * mid) 0) false aLo bLo).1
+  let (w0, k0) := addSignedSameLen W (window c 0 (2 * mid)) neg cLo
+  let c := setWindow c 0 w0
+  let carryC0 : Int := k0
+  let (w1, k1) := addSignedSameLen W (window c mid (3 * mid)) neg cLo
+  let c := setWindow c mid w1
+  let carryC1 : Int := k1
+  -- c_hi = a_hi * b_hi
+  let cHi := (rec (List.replicate (2 * (n - mid)) 0) false aHi bHi).1
+  let (w2, k2) := addSignedSameLen W (c.drop (2 * mid)) neg cHi
+  let c := setWindow c (2 * mid) w2
+  let carry : Int := k2
+  let (w3, k3) := addSignedInPlace W (window c mid (3 * mid)) neg cHi
+  let c := setWindow c mid w3
+  let carryC1 := carryC1 + k3
+  -- c_1 -= (a_lo - a_hi) * (b_lo - b_hi)
+  let (sa, aDiff) := subInPlaceWithSign W aLo aHi
+  let (sb, bDiff) := subInPlaceWithSign W bLo bHi
+  let diffNeg := sa != sb                              -- diff_sign is Negative
+  let (w4, k4) := rec (window c mid (3 * mid)) (!(neg != diffNeg)) aDiff bDiff   -- -sign * diff_sign
+  let c := setWindow c mid w4
+  let carryC1 := carryC1 + k4
+  -- propagate carries
+  let (w5, k5) := addSignedWord W (window c (2 * mid) (3 * mid)) carryC0
+  let c := setWindow c (2 * mid) w5
+  let carryC1 := carryC1 + k5
+  let (w6, k6) := addSignedWord W (c.drop (3 * mid)) carryC1
+  let c := setWindow c (3 * mid) w6
+  (c, carry + k6)
+
+/-- `mul::add_signed_mul_same_len`: dispatch on `n` (thresholds regenerated from source);
+    `fuel` bounds the recursion depth (`a.length` always suffices; at 0 the exact schoolbook kernel is
+    used, which has the same contract) -/
+def addSignedMulSameLen (W : Nat) : Nat → MulKernel
+  | 0 => fun c neg a b => addSignedMulChunk W c neg a b
+  | fuel + 1 => fun c neg a b =>
+    if a.length ≤ Dashu.Gen.mul_THRESHOLD_SIMPLE then addSignedMulChunk W c neg a b
+    else if a.length ≤ Dashu.Gen.mul_THRESHOLD_KARATSUBA then
+      karatsubaSameLen W (addSignedMulSameLen W fuel) c neg a b
+    else addSignedMulFrontier W c neg a b
+
+-- ---------------------------------------------------------------- helpers::add_signed_mul_split_into_chunks
+
+/-- the part of `add_signed_mul_split_into_chunks` after the loop: propagate `carry_n` into `c[n..]`,
+    then one more `mul::add_signed_mul` (`tail`) on the remaining `a` (operands ordered by length) -/
+def splitFinish (W : Nat) (tail : MulKernel) (c : List Nat) (neg : Bool) (a b : List Nat)
+    (carryN : Int) : List Nat × Int :=
+  let n := b.length
+  let (w, carry0) := addSignedWord W (c.drop n) carryN
+  let c := c.take n ++ w
+  if a.length ≥ b.length then
+    let (r, k) := tail c neg a b
+    (r, carry0 + k)
+  else if a ≠ [] then
+    let (r, k) := tail c neg b a
+    (r, carry0 + k)
+  else (c, carry0)
+
+/-- the `while a.len() >= chunk_len` loop of `add_signed_mul_split_into_chunks`; `c`, `a` are the
+    not yet processed suffixes, `carryN` the pending signed carry at `c[n]` (`n = b.len()`) -/
+def splitLoop (W chunkLen : Nat) (f tail : MulKernel) : Nat → List Nat → Bool → List Nat →
+    List Nat → Int → List Nat × Int
+  | 0, c, neg, a, b, carryN => splitFinish W tail c neg a b carryN
+  | k + 1, c, neg, a, b, carryN =>
+    if a.length ≥ chunkLen then
+      let n := b.length
+      -- carry_n = add_signed_word_in_place(&mut c[n..chunk_len + n], carry_n)
+      let (w1, k1) := addSignedWord W (window c n (chunkLen + n)) carryN
+      let c := setWindow c n w1
+      -- carry_n += f(&mut c[..chunk_len + n], sign, a_lo, b)
+      let (w2, k2) := f (c.take (chunkLen + n)) neg (a.take chunkLen) b
+      let c := setWindow c 0 w2
+      -- a = a_hi; c = &mut c[chunk_len..]
+      let (r, carry) := splitLoop W chunkLen f tail k (c.drop chunkLen) neg (a.drop chunkLen) b (k1 + k2)
+      (c.take chunkLen ++ r, carry)
+    else splitFinish W tail c neg a b carryN
+
+/-- `mul::add_signed_mul(c, sign, a, b)`: order the operands, dispatch on the shorter length:
+    `simple::add_signed_mul` (one chunk, or chunks of `CHUNK_LEN` with `add_signed_mul_chunk`),
+    `karatsuba::add_signed_mul` / `toom_3::add_signed_mul` (chunks of `b.len()` with the same-length
+    kernel).  `fuel` bounds the recursion through the remainder call. -/
+def addSignedMul (W : Nat) : Nat → MulKernel
+  | 0 => fun c neg a b =>
+    if a.length < b.length then addSignedMulChunk W c neg b a else addSignedMulChunk W c neg a b
+  | fuel + 1 => fun c neg a0 b0 =>
+    let a := if a0.length < b0.length then b0 else a0
+    let b := if a0.length < b0.length then a0 else b0
+    if b.length ≤ Dashu.Gen.mul_THRESHOLD_SIMPLE then
+      if a.length ≤ Dashu.Gen.mul_simple_CHUNK_LEN then addSignedMulChunk W c neg a b
+      else splitLoop W Dashu.Gen.mul_simple_CHUNK_LEN (addSignedMulChunk W) (addSignedMul W fuel)
+        a.length c neg a b 0
+    else if b.length ≤ Dashu.Gen.mul_THRESHOLD_KARATSUBA then
+      splitLoop W b.length (karatsubaSameLen W (addSignedMulSameLen W b.length)) (addSignedMul W fuel)
+        a.length c neg a b 0
+    else
+      splitLoop W b.length (addSignedMulFrontier W) (addSignedMul W fuel) a.length c neg a b 0
 
 end Dashu.Model
